@@ -2,7 +2,7 @@
 From Coq Require Import ZArith List String Bool.
 From Hexital Require Import Base.Prelude Base.Num Model.Manager Model.Candle Model.Readings Model.Engine
   Model.Hexital Model.Analysis Proofs.FrameProofs Proofs.HexitalProofs Proofs.AnalysisProofs Proofs.CausalProofs
-  Proofs.SimProofs Proofs.NonInterference.
+  Proofs.SimProofs Proofs.NonInterference Proofs.DeliverProofs Proofs.ParamProofs Proofs.HxSimProofs Proofs.SeedProofs.
 Import ListNotations.
 
 (* A member that has a timeframe (manager) of its own: appending to the Hexital is exactly
@@ -42,3 +42,61 @@ Theorem C08_leaf_member_equals_standalone :
   (forall e, calculate O B shared = Err e <-> calculate O B alone = Err e).
 Proof. intros O B others Hl Ht Hk Hn Hf s1 s2 HP. eapply noninterference; eassumption. Qed.
 Print Assumptions C08_leaf_member_equals_standalone.
+
+(* Candle management never looks at readings: two candle lists that agree on timestamps,
+   values, clean values and tags are collapsed, filled, converted and trimmed to lists that
+   agree again, and raise alike - so the candles of a member's timeframe cannot depend on what
+   any indicator wrote on them. *)
+Theorem C08_candle_management_ignores_readings :
+  forall (O : NumOps) (cfg : mcfg) (st st' new : list (cd (payload O))),
+  RL (payload O) (same_data O) st st' ->
+  RR (payload O) (same_data O) (mgr_append O cfg st new) (mgr_append O cfg st' new).
+Proof. exact mgr_append_same. Qed.
+Print Assumptions C08_candle_management_ignores_readings.
+
+(* The timeframes of a Hexital evolve independently of its indicators: along any program of
+   append / calculate / purge / recalculate / calculate_index / remove_indicator /
+   add_indicator, the Hexital's managers and a bare dictionary of candle managers given the
+   same appends (creating a timeframe when the Hexital does) agree manager by manager. *)
+Theorem C08_timeframes_evolve_independently_of_indicators :
+  forall (O : NumOps) (hcfg : mcfg) (ops : list (hop O)) (h h' : hexital O) (M : list (string * (mcfg * store O))),
+  members_wf O h -> Forall (op_wf O) ops -> mgrs_rel O (RL (payload O) (same_data O)) (h_mgrs O h) M ->
+  foldM (hx_step O hcfg) ops h = Ok h' ->
+  exists M', foldM (m_step O hcfg) ops M = Ok M' /\ mgrs_rel O (RL (payload O) (same_data O)) (h_mgrs O h') M'.
+Proof. exact hx_program_sim. Qed.
+Print Assumptions C08_timeframes_evolve_independently_of_indicators.
+
+(* "Any way of supplying the base candles": in a Hexital without a timeframe and lifespan of
+   its own (Heikin-Ashi and the fill flag are free), built over raw candles with any members and
+   driven by any program whose appends bring raw candles, every member timeframe holds - up to
+   readings - the candles of a standalone CandleManager with the member's effective settings,
+   built over the stream as it was when the timeframe appeared (at construction or at a later
+   add_indicator) and given every later chunk. *)
+Theorem C08_member_timeframes_are_standalone_managers :
+  forall (O : NumOps) (hcfg : mcfg) (init : list (cd (payload O))) (members : list (ind O * option (string * Z)))
+         (ops : list (hop O)) (h0 h' : hexital O),
+  plain hcfg -> Forall (raw_cd O) init -> Forall (fun m => wf_tree O FUEL (fst m)) members ->
+  Forall (op_wf O) ops -> Forall (op_raw O) ops ->
+  hx_new O hcfg init members = Ok h0 -> foldM (hx_step O hcfg) ops h0 = Ok h' ->
+  Forall (fun kv : string * (mcfg * store O) =>
+            fst kv = "default"%string \/
+            (is_own (fst (snd kv)) hcfg /\
+             exists xs chunks st, (init ++ appended O ops)%list = (xs ++ List.concat chunks)%list /\
+                                  mgr_run O (fst (snd kv)) xs chunks = Ok st /\
+                                  RL (payload O) (same_data O) (snd (snd kv)) st))
+         (h_mgrs O h').
+Proof. exact hexital_timeframes_are_standalone_managers. Qed.
+Print Assumptions C08_member_timeframes_are_standalone_managers.
+
+(* the hypotheses are met: e.g. a Heikin-Ashi Hexital with the fill flag, a fresh candle, a
+   shipped indicator added later, an append of a fresh candle *)
+Example C08_hypotheses_are_met :
+  forall (O : NumOps) (x : ohlcv O) (k : kind O) (name : string) (rnd : Z) own,
+  plain {| tf := None; fillon := true; ha := true; lifespan := None |} /\
+  raw_cd O {| t := 60; p := raw_payload O x |} /\
+  op_wf O (HAdd O (top O k name rnd) own) /\
+  op_raw O (HAppend O [{| t := 120; p := raw_payload O x |}]).
+Proof.
+  intros. split; [split; reflexivity|]. split; [reflexivity|]. split; [cbn [op_wf]; apply wf_top|].
+  constructor; [reflexivity|constructor].
+Qed.
